@@ -149,6 +149,28 @@ def lockOrderOk (rank : List (Nat × String × Nat)) (edges : List (Nat × Nat))
 def noLeak (loose : List (String × String × String × String × String)) : Bool :=
   loose.all fun l => l.2.2.1 != "leak"
 
+/-- Entry points whose unguarded accesses to the process-wide state happen at start-up, before the
+invocation starts any goroutine and before a handler can run (assumption listed in checks/C20.json:
+one `driver.PProf` invocation at a time performs start-up, concurrent invocations use identical
+flags; `AddCommand` is an extension hook to be called before `PProf`). -/
+def startupFns : List String := ["parseFlags", "interactive", "serveWebInterface", "AddCommand"]
+
+/-- no lost-update shape (value of a guarded variable read in one critical section, a value
+computed from it written back in another) outside start-up -/
+def noSplitRmw (l : List (String × String × String × String)) : Bool :=
+  l.all fun x => startupFns.contains x.1
+
+/-- every rename (which replaces its destination) is serialised by a mutex or is an exclusive
+link: a name reserved with O_EXCL protects only ITSELF, not the name the file is renamed to -/
+def renamesOk (l : List (String × String × String × String)) : Bool :=
+  l.all fun x => x.2.2.2 != ""
+
+/-- every assignment to a package-level variable inside a function is covered by a barrier (a
+mutex held, a `sync.Once` body, `init`) — in particular no lazily initialised global without a
+barrier — or is a start-up write -/
+def globalsOk (l : List (String × String × String × Barrier)) : Bool :=
+  l.all fun x => x.2.2.2 != .none || startupFns.contains x.2.1
+
 def tempExcl (t : TempFileFacts) : Bool :=
   t.oExcl != 0 && t.oCreate != 0 &&
   t.flags &&& t.oExcl == t.oExcl && t.flags &&& t.oCreate == t.oCreate && t.retriesOnExist
